@@ -159,6 +159,30 @@ CHECKS = {
         design_ref="DESIGN.md section 4, C12",
         note="Trusted base: CrossHair 0.0.110, z3 5.1, plugin struct model, abstract checksum (also in replays of these obligations), reference parser; the link from the CRC model to the C implementation in zlib is by vectors. Time/memory proportionality is replaced by the reader-call bound; buffer sizes are those stated in the evidence.",
     ),
+    "C06": dict(
+        category="model_checking",
+        technique="dynamic symbolic execution (symrun/z3) of the real _KafkaBrokerClient, KafkaProtocol and KafkaBootstrapProtocol over an in-memory network: symbolic choice of frame ids, split points and event order, exhaustive within bounds",
+        text="Bounded symbolic model checking of request/response correlation on the real broker client and both framing protocols over SimNet. "
+             "Up to three concurrent requests (with and without expected reply); the broker answers in any order with frames bearing the id of any "
+             "live, answered or cancelled request or an unknown id; frames are delivered whole, cut inside the length prefix, inside the correlation "
+             "id or before the last byte, or coalesced with a second frame; impossible length prefixes, cancellation, connection loss, duplicate ids "
+             "and close are interleaved. After every event exactly the addressed live request must have fired, with exactly the frame's bytes. The "
+             "quantified objects are orders and subsets (finite-domain symbolic choices); the verdict is the exhausted, solver-pruned path tree.",
+        design_ref="DESIGN.md section 4, C06",
+        note=TB_B + " No numeric symbolic data (symbolic_data_vars is empty); the bootstrap protocol's documented drop-on-unknown-id is not flagged.",
+    ),
+    "C10": dict(
+        category="model_checking",
+        technique="dynamic symbolic execution (symrun/z3) of the real _KafkaBrokerClient reconnect/resend logic over an in-memory network: symbolic request flags, drop points (incl. inside a frame), connect failures, cancels and close",
+        text="Bounded symbolic model checking of reconnection on the real broker client: requests with symbolic flags, connection loss at any point "
+             "(also after a partially delivered response), 0..3 consecutive refused connects, cancellations and close in any order. Monitors on the "
+             "per-connection frame log: a new connection receives exactly the live unanswered (or never-written no-reply) requests once, in issue "
+             "order; answered, cancelled and already-written no-reply requests never reappear; an attempt or back-off timer is pending whenever "
+             "unanswered requests remain; back-off equals policy(consecutive failures) and resets after a success; an idle drop starts nothing; "
+             "close fails all pending, cancels attempt and timer, and no attempt follows.",
+        design_ref="DESIGN.md section 4, C10",
+        note=TB_B + " Retry policy n -> n s; finite-domain symbolic choices only.",
+    ),
 }
 
 NOT_YET = "check not built yet in this session; see DESIGN.md section 4 for the planned solver-based harness"
